@@ -26,11 +26,12 @@ Inductive topk := TFirst | TRest | TSeqOp | TNext | TIter (n : nat) (acc : list 
 
 Inductive frame :=
 | KSeq (c : cid)                    (* call LazySeq.seq on c *)
-| KSeqAfter (c : cid)               (* inside seq(c): mutex held; the generator started by the nested _compute_seq is running *)
 | KUnwrap (c : cid) (w : obj)       (* inside seq(c): mutex held; head of `loop { if wrapped is a LazySeq ...` *)
 | KUnwrapRet (c : cid)              (* inside seq(c): mutex held; waiting for wrapped._compute_seq() *)
 | KComp (c : cid)                   (* call LazySeq._compute_seq on c (from the loop of another cell's seq) *)
-| KCompRet (c : cid) (g : gen)      (* inside _compute_seq(c): mutex held; generator g is running *)
+| KCompRet (c : cid) (g : gen) (inseq : bool)
+                                    (* inside _compute_seq(c): mutex held, generator g is running.  inseq = the call came
+                                       from seq(c), which holds the mutex once more and goes on with the loop afterwards *)
 | KScript (l : list action)         (* a scripted generator *)
 | KTouched (d : cid) (l : list action)
 | KPull (it : nat)                  (* Sequence.__call__ *)
@@ -189,8 +190,9 @@ Definition start_op (st : mstate) (t : tid) (th : thread) (op : cop) (p : list c
   end.
 
 (** the consumer frame [KTop k c] receives the result of seq(c) *)
-Definition top_ret (st : mstate) (t : tid) (th : thread) (k : topk) (c : cid) (r : res) : option mstate :=
-  let th0 := th_set th [] None in
+Definition top_ret (st : mstate) (t : tid) (th : thread) (rest : list frame) (k : topk) (c : cid) (r : res)
+  : option mstate :=
+  let th0 := th_set th rest None in
   match r with
   | Ok o =>
       match k with
@@ -202,12 +204,12 @@ Definition top_ret (st : mstate) (t : tid) (th : thread) (k : topk) (c : cid) (r
       | TNext =>
           let o' := match o with OCons _ rst => rest_norm rst | _ => OEmpty end in
           match o' with
-          | OLazy d => Some (set_thr st t (th_set th [KSeq d; KTop TSeqOp d] None))
+          | OLazy d => Some (set_thr st t (th_set th (KSeq d :: KTop TSeqOp d :: rest) None))
           | _ => Some (set_thr st t (th_obs (th_reg th0 (seq_or_nil o')) (kind_obs (seq_or_nil o'))))
           end
       | TIter n acc =>
           match o with
-          | OCons v rst => Some (set_thr st t (th_set th [KIter (rest_norm rst) n (v :: acc)] None))
+          | OCons v rst => Some (set_thr st t (th_set th (KIter (rest_norm rst) n (v :: acc) :: rest) None))
           | _ => Some (set_thr st t (th_obs th0 (BList (rev acc))))
           end
       end
@@ -244,23 +246,12 @@ Definition stepf (t : tid) (st : mstate) : option mstate :=
               match gen_frame g with
               | Some fr =>
                   Some (set_thr (m_start (acquire (acquire st c t) c t) c) t
-                                (th_set th (fr :: KCompRet c g :: KSeqAfter c :: k) None))
+                                (th_set th (fr :: KCompRet c g true :: k) None))
               | None => None
               end
           | None => None
           end
         else None
-    | Some r, KSeqAfter c :: k =>
-        match r with
-        | Ok _ =>
-            match m_cst st c with
-            | Some (Computed o) => Some (set_thr st t (th_set th (KUnwrap c o :: k) None))
-            | Some _ => Some (seq_return (release st c) t th k c ONil)
-            | None => None
-            end
-        | Exn => Some (set_thr (release st c) t (th_set th k (Some Exn)))
-        | _ => None
-        end
     | None, KUnwrap c w :: k =>
         match w with
         | OLazy d => Some (set_thr st t (th_set th (KComp d :: KUnwrapRet c :: k) None))
@@ -282,17 +273,23 @@ Definition stepf (t : tid) (st : mstate) : option mstate :=
           | Some (Computed o) | Some (Realized o) => Some (set_thr st t (th_set th k (Some (Ok o))))
           | Some (Initialized g) =>
               match gen_frame g with
-              | Some fr => Some (set_thr (m_start (acquire st c t) c) t (th_set th (fr :: KCompRet c g :: k) None))
+              | Some fr => Some (set_thr (m_start (acquire st c t) c) t (th_set th (fr :: KCompRet c g false :: k) None))
               | None => None
               end
           | None => None
           end
         else None
-    | Some r, KCompRet c g :: k =>
+    | Some r, KCompRet c g inseq :: k =>
         match r with
-        | Ok o => Some (set_thr (release (m_set_cst st c (Computed o)) c) t (th_set th k (Some (Ok o))))
-        | Exn => Some (set_thr (release (m_throw st c (if restore then Initialized g else Computing)) c) t
-                               (th_set th k (Some Exn)))
+        | Ok o =>
+            let st1 := release (m_set_cst st c (Computed o)) c in
+            if inseq
+            then Some (set_thr st1 t (th_set th (KUnwrap c o :: k) None))
+                 (* back in seq(c), same stretch of Rust code: the state is the Computed(obj) just stored *)
+            else Some (set_thr st1 t (th_set th k (Some (Ok o))))
+        | Exn =>
+            let st1 := release (m_throw st c (if restore then Initialized g else Computing)) c in
+            Some (set_thr (if inseq then release st1 c else st1) t (th_set th k (Some Exn)))
         | _ => None
         end
     (* ---------- generators ---------- *)
@@ -335,7 +332,7 @@ Definition stepf (t : tid) (st : mstate) : option mstate :=
             | _ => Some (set_thr st t (th_obs (th_set th k None) (BList (rev acc))))
             end
         end
-    | Some r, KTop tk c :: _ => top_ret st t th tk c r
+    | Some r, KTop tk c :: k => top_ret st t th k tk c r
     | _, _ => None
     end
   end.
